@@ -272,6 +272,10 @@ class Ctx:
             self.count(f"{label}:{cls}")
             if b.startswith("harness-error") or a == "bad-op":
                 raise InternalError(f"harness problem on `{line[:300]}`: model={a[:200]} impl={b[:300]}")
+            if a == "err NotModelled(model)":
+                # the input leaves the modelled part of the code (explicit curve parameters, EdDSA keys): no comparison
+                self.count(f"{label}:outside-model")
+                continue
             if a != b:
                 if len(self.disagreements) < stop_after:
                     self.disagreements.append({"op": line, "model": a, "impl": b, "label": label})
